@@ -318,6 +318,64 @@ static void judge(Ctx& ctx, const Case& c, bool from_replay) {
       " join " + kJtName[jt] + " ml " + ldstr(ml) + " arc_tol " + ldstr(at);
     std::vector<std::string> tags = { ex == EX_IN ? "not_covered" : "covered_beyond", small ? "small_delta" : dirtag };
     { int W2; bool on2; ld sd2; tags.push_back(eval_point(P, R, q, 1, 1.5L, W2, on2, sd2) == EX_NONE ? "excess_le_1.5" : "excess_gt_1.5"); }
+    // classifier: is the sample next to a result vertex that itself lies outside the band and is not an input vertex (the
+    // truncated triple-crossing class recorded for C06.boundary, whose 1/256-grid search did not happen to hit a
+    // misclassified point here)?
+    if (tags.back() == "excess_le_1.5") {
+      bool near_off = false;
+      for (const Path64& rp : R) for (const Point64& v : rp) {
+        ld dx = (ld)v.x - (ld)q.x, dy = (ld)v.y - (ld)q.y; if (dx * dx + dy * dy > 25) continue;
+        int W0; bool on0; ld sd0; if (eval_point(P, R, v, 1, 0, W0, on0, sd0) == EX_NONE) continue;
+        bool at_input = false; for (const Path64& ip : P) for (const Point64& u : ip) if (u == v) at_input = true;
+        if (!at_input) near_off = true;
+      }
+      if (near_off) tags.push_back("excess_le_1.5@within_5_units_of_a_result_vertex_that_is_outside_the_band_and_not_an_input_vertex");
+      // ... or beside a result edge one of whose end points lies outside the band (the edge is a chord to a misplaced
+      // crossing vertex; the sample sits in the sliver between that chord and the ideal boundary)
+      ld best = -1; Point64 ea, eb;
+      for (const Path64& rp : R) for (size_t a = 0; a < rp.size(); ++a) { const Point64& u = rp[a]; const Point64& v = rp[(a + 1) % rp.size()];
+        ld d = dist_pt_seg(u, v, q); if (best < 0 || d < best) { best = d; ea = u; eb = v; } }
+      if (best >= 0 && best <= 4) {
+        bool off_end = false;
+        for (const Point64& v : { ea, eb }) { int W0; bool on0; ld sd0; if (eval_point(P, R, v, 1, 0, W0, on0, sd0) == EX_NONE) continue;
+          bool at_input = false; for (const Path64& ip : P) for (const Point64& u : ip) if (u == v) at_input = true;
+          if (!at_input) off_end = true; }
+        if (off_end) tags.push_back("excess_le_1.5@beside_a_result_edge_that_ends_in_a_vertex_outside_the_band");
+      }
+      // ... or beside a long result edge whose two end points are both legitimate boundary points (inside the band): the
+      // boundary between them is cut short by a straight chord that leaves the band in between
+      if (best >= 0 && best <= 1) {
+        bool both_in = true;
+        for (const Point64& v : { ea, eb }) { int W0; bool on0; ld sd0; if (eval_point(P, R, v, 1, 0, W0, on0, sd0) != EX_NONE) both_in = false; }
+        ld len = sqrtl((ld)dist2(ea, eb));
+        if (both_in && len >= 30) tags.push_back("excess_le_1.5@beside_a_long_result_chord_between_two_in_band_vertices");
+      }
+      // ... and is it a coincidence of the integer grid? The same scene (centred) with paths, delta and arc tolerance
+      // multiplied by s and s/4+1 must then give the demanded coverage at the scaled point (same classifier as C07's)
+      {
+        int64_t bx0 = 0, by0 = 0, bx1 = 0, by1 = 0; bool anyb = false; bounds(P, bx0, by0, bx1, by1, anyb);
+        const int64_t ccx = bx0 / 2 + bx1 / 2, ccy = by0 / 2 + by1 / 2;
+        Paths64 Pc = P; gen::translate(Pc, -ccx, -ccy); const Point64 qc(q.x - ccx, q.y - ccy);
+        const ld Mx = std::max<ld>({ (ld)max_abs_coord(Pc), fabsl((ld)qc.x), fabsl((ld)qc.y), ad * 8 });
+        int64_t smax = 1024; while (smax > 1 && Mx * (ld)smax > 0x1p46L) smax /= 4;
+        if (smax >= 16) {
+          int agree = 0;
+          for (int64_t sc : { smax, smax / 4 + 1 }) {
+            Paths64 Ps = Pc; gen::scale_paths(Ps, sc); const Point64 qs(qc.x * sc, qc.y * sc);
+            Paths64 R2; const double d2 = delta_d * (double)sc, at2 = at * (double)sc;
+            if (api == 0) R2 = InflatePaths(Ps, d2, (JoinType)jt, EndType::Polygon, ml, at2);
+            else { ClipperOffset co2(ml, at2); co2.ReverseSolution(rev); co2.AddPaths(Ps, (JoinType)jt, EndType::Polygon);
+              if (api == 2) { PolyTree64 t2; co2.Execute(d2, t2); R2 = PolyTreeToPaths64(t2); } else co2.Execute(d2, R2); }
+            int W2 = winding(R2, qs);
+            if (ex == EX_IN ? W2 == sigma : W2 == 0) ++agree;
+          }
+          tags.push_back(agree == 2 ? "isolated_not_reproduced_on_finer_grid" : "reproduced_on_finer_grid");
+          if (agree == 2 && std::find(tags.begin(), tags.end(), "excess_le_1.5@beside_a_long_result_chord_between_two_in_band_vertices") != tags.end())
+            tags.push_back("cleanup_union_misfill:long_chord_between_in_band_vertices+not_reproduced_on_finer_grid");
+        } else tags.push_back("finer_grid_not_tried");
+      }
+      if (best >= 0) detail += "; nearest result edge " + ptstr(ea) + "-" + ptstr(eb) + " at " + ldstr(best);
+    }
     if (jt == JT_BEVEL && !small && (pr.rect_left || pr.rect_right)) tags.push_back("in_sweep_rectangle");
     if (overshrink) tags.push_back("overshrink");
     ctx.violation(small ? "C06.small_delta" : claim, tags, c, detail);
